@@ -851,7 +851,10 @@ func (s *clientSocket) _sendBuffers(volatile, forceSend bool, ackID *uint64, buf
 		}
 
 		s.stateMu.RLock()
-		sendImmediately := s.state == clientSocketConnStateConnected || s.state == clientSocketConnStateConnectPending
+		// While the server's reply to our CONNECT packet is pending, the namespace
+		// is not joined yet: the server closes the whole connection if it receives a
+		// packet for it. Such packets wait in sendBuffer and are sent by emitBuffered.
+		sendImmediately := s.state == clientSocketConnStateConnected
 		s.stateMu.RUnlock()
 		if sendImmediately || forceSend {
 			s.manager.packet(packets...)
